@@ -43,7 +43,16 @@ def run(ctx):
                 for i, c in enumerate(ch):
                     if gaps and i:
                         # unrelated same-thread record (other pairing domain for string chunks), other thread's chunk
-                        stream += [w.known(rnd.choice([0, 3]), 1)] if kind == 'lkp' else g.ord_single(1)
+                        # (for string chunks: records of the OTHER pairing domain, and single records of their own domain -
+                        # a new-thread / exec data record, a terminate record, an undecoded trace-class record - which land
+                        # in the string's window: the text is made of the string's own records only)
+                        if kind == 'lkp':
+                            stream += [w.known(rnd.choice([0, 3]), 1)]
+                        else:
+                            r_ = rnd.random()
+                            stream += g.ord_single(1) if r_ < 0.4 else [rnd.choice([
+                                lambda: w.ntd(1, 2, 7), lambda: w.exd(1, 9), lambda: w.term(1, 2), lambda: w.tpid(1, 5),
+                                lambda: w.known(rnd.choice([0, 3]), 1, name=rnd.choice(w.trace_known))])()]
                         stream += w.lookup(2, b'/other') if kind == 'lkp' else w.tname(2, b'oth')
                     stream.append(c)
                 cases.append(('%s_%d_%d' % (kind, n, gaps), w, stream))
